@@ -102,6 +102,13 @@ CLEAN_SAMPLES = [
 ]
 
 
+def _relabel(x, dlang):
+    """Rename the default-language key to a fixed token so the results for different default languages are comparable."""
+    if isinstance(x, dict):
+        return {("<default language>" if k == dlang else k): _relabel(v, dlang) for k, v in x.items()}
+    return x
+
+
 def column_order_rule(ctx, prop, rid, sets=None):
     """Permuting the columns of a sheet does not change what a row means: the header grouping (process_header +
     process_row + merge_dicts) is evaluated abstractly for every permutation of small column sets that mix plain,
@@ -125,7 +132,9 @@ def column_order_rule(ctx, prop, rid, sets=None):
         results = {}
         failed = None
         dbl = any("::" in h for h in headers)
-        for perm in _it.permutations(headers):
+        # with the default language unset ("default") and set to a language other than the translated column's: the
+        # plain column belongs to THAT language in every order
+        for perm, dlang in _it.product(list(_it.permutations(headers)), ("default", "English (en)")):
             try:
                 key = {}
                 for h in perm:
@@ -134,11 +143,12 @@ def column_order_rule(ctx, prop, rid, sets=None):
                     key[h] = toks
                 it.reset([])
                 row = {h: f"cell<{h}>" for h in perm}
-                out = it.call_function(pr, [], {"sheet_name": "survey", "row": row, "header_key": key, "default_language": "default"}, None, pr.node)
+                out = it.call_function(pr, [], {"sheet_name": "survey", "row": row, "header_key": key, "default_language": dlang}, None, pr.node)
             except Raised as e:
                 failed = f"{perm}: raises {e.exc_name}{e.exc_args}"
                 break
-            results.setdefault(canon(out), []).append(perm)
+            # results are compared per default language; the language key itself is normalised away
+            results.setdefault(canon(_relabel(out, dlang)), []).append(perm)
         if failed:
             r.fail(f"process_row[{name}]", f"evaluates ({failed})", pr.loc())
             continue
